@@ -7,16 +7,13 @@ open Yaclib.Extracted
 theorem run_cons (cfg : Cfg) (st : State) (ev : Event) (evs : List Event) :
     run cfg st (ev :: evs) = run cfg (mech cfg st ev) evs := rfl
 
-theorem inv_fold (cfg : Cfg) : ∀ (evs : List Event) (st : State) (p : Prog) (h : Handle),
-    (d10FreeProg p = true → Inv cfg st p h) →
-    d10FreeProg (evs.foldl clientEv (p, h)).1 = true →
+theorem inv_fold (cfg : Cfg) : ∀ (evs : List Event) (st : State) (p : Prog) (h : Handle), Inv cfg st p h →
     Inv cfg (run cfg st evs) (evs.foldl clientEv (p, h)).1 (evs.foldl clientEv (p, h)).2
-  | [], st, p, h, hinv, hd => hinv hd
-  | ev :: evs, st, p, h, hinv, hd => by
+  | [], st, p, h, hinv => hinv
+  | ev :: evs, st, p, h, hinv => by
     rw [run_cons]
-    simp only [List.foldl_cons] at hd ⊢
-    exact inv_fold cfg evs (mech cfg st ev) (clientEv (p, h) ev).1 (clientEv (p, h) ev).2
-      (fun hd' => inv_step cfg st p h ev hinv hd') hd
+    simp only [List.foldl_cons]
+    exact inv_fold cfg evs (mech cfg st ev) (clientEv (p, h) ev).1 (clientEv (p, h) ev).2 (inv_step cfg st p h ev hinv)
 
 /-- the empty state ignores everything but a well-formed source -/
 theorem mech_idle (cfg : Cfg) (ev : Event)
@@ -35,8 +32,7 @@ theorem mech_idle (cfg : Cfg) (ev : Event)
 
 /-- the first well-formed source establishes the invariant -/
 theorem inv_src (cfg : Cfg) (s : Src) (lazy : Bool) (head : Option Step)
-    (hwf : ((s == Src.unit) != head.isSome) = false)
-    (hd : d10FreeProg ⟨s, lazy, head.toList, none⟩ = true) :
+    (hwf : ((s == Src.unit) != head.isSome) = false) :
     Inv cfg (mech cfg {} (.src s lazy head)) ⟨s, lazy, head.toList, none⟩ (if lazy then .task else .fut) := by
   have hunit : (s == Src.unit) = head.isSome := by
     cases h1 : (s == Src.unit) <;> cases h2 : head.isSome <;> simp_all
@@ -51,7 +47,7 @@ theorem inv_src (cfg : Cfg) (s : Src) (lazy : Bool) (head : Option Step)
     simp only [Bool.false_eq_true, ite_false]
     have hsp := startSrc_spec cfg s none
       ((G.allocCore {} (srcCores s + head.toList.length)).allocFunctor (srcFunctors s + head.toList.length))
-    refine inv_started cfg _ _ _ false _ _ _ rfl (Or.inl ⟨rfl, rfl, rfl⟩) hd ⟨by simp, hne⟩ ?_ ?_ ?_
+    refine inv_started cfg _ _ _ false _ _ _ rfl (Or.inl ⟨rfl, rfl, rfl⟩) ⟨by simp, hne⟩ ?_ ?_ ?_
     · intro r inh c g' hgo
       rw [hgo] at hsp
       obtain ⟨e1, e2⟩ := hsp
@@ -62,12 +58,11 @@ theorem inv_src (cfg : Cfg) (s : Src) (lazy : Bool) (head : Option Step)
       cases hu : (s == Src.unit) <;> simp [overrideHead]
     · intro w inh g' hw
       rw [hw] at hsp
-      obtain ⟨a1, a2, a3, a4, a5⟩ := hsp
+      obtain ⟨a1, a2, a3, a5⟩ := hsp
       simp only [allocFunctor_subs, allocCore_subs, allocFunctor_invoked, allocCore_invoked] at a1 a2 a3
       have a2' : (specSrc cfg s none false []).2 = (inh, g'.subs) := a2
       have a3' : g'.invoked = [] := a3
       have a1' : ∀ inv, specFire cfg w inh g'.subs inv = ⟨(specSrc cfg s none false []).1, inh, g'.subs, inv⟩ := a1
-      refine ⟨?_, a4⟩
       have b1 : (specSrc cfg s none false []).2.1 = inh := by rw [a2']
       have b2 : (specSrc cfg s none false []).2.2 = g'.subs := by rw [a2']
       simp only [spec, Bool.false_eq_true, ite_false, specThread, specFrames, a1', a5, a3', b1, b2]
@@ -78,7 +73,7 @@ theorem inv_src (cfg : Cfg) (s : Src) (lazy : Bool) (head : Option Step)
 theorem inv_run (cfg : Cfg) : ∀ (evs : List Event),
     match client evs with
     | none => run cfg {} evs = {}
-    | some (p, h) => d10FreeProg p = true → Inv cfg (run cfg {} evs) p h
+    | some (p, h) => Inv cfg (run cfg {} evs) p h
   | [] => rfl
   | ev :: evs => by
     rw [run_cons]
@@ -87,8 +82,7 @@ theorem inv_run (cfg : Cfg) : ∀ (evs : List Event),
       simp only [client]
       cases hwf : ((s == Src.unit) != head.isSome)
       · simp only [Bool.false_eq_true, ite_false]
-        intro hd
-        exact inv_fold cfg evs _ _ _ (fun hd0 => inv_src cfg s lazy head hwf hd0) hd
+        exact inv_fold cfg evs _ _ _ (inv_src cfg s lazy head hwf)
       · simp only [ite_true]
         rw [mech_idle cfg _ (fun s' l' h' he => by cases he; exact hwf)]
         exact inv_run cfg evs
@@ -98,5 +92,12 @@ theorem inv_run (cfg : Cfg) : ∀ (evs : List Event),
     | start k => rw [mech_idle cfg _ (fun _ _ _ he => by cases he)]; exact inv_run cfg evs
     | dropFuture => rw [mech_idle cfg _ (fun _ _ _ he => by cases he)]; exact inv_run cfg evs
     | get => rw [mech_idle cfg _ (fun _ _ _ he => by cases he)]; exact inv_run cfg evs
+
+/-- **no reachable state is a crash** (with the extracted tables of the fixed tree; cf. defect D10) -/
+theorem run_not_crashed (cfg : Cfg) (evs : List Event) : (run cfg {} evs).crashed = false := by
+  have h := inv_run cfg evs
+  cases hc : client evs with
+  | none => rw [hc] at h; rw [h]
+  | some ph => obtain ⟨p, hd⟩ := ph; rw [hc] at h; exact h.1
 
 end Yaclib.Pipeline
